@@ -284,10 +284,71 @@ void h_c07_profiles_meetup(void)
         free(pa); if(pb){ free(pb); }
         KV_REACH();
 }
+/* C08 (B): one Hirschberg step of the profile kernels on a diagonal block when BOTH operands are groups of copies of the
+   SAME string (KV_KA copies as rows, KV_KB copies -- or the bare sequence -- as columns), unit boundary states, called with
+   the arguments aln_runner_serial passes: the step returns transition 1 (aligned -> aligned) at meet == mid.  See
+   harness/c08_diag.c for the induction this step belongs to.  Shape: KV_ROWS == KV_LB == length of the string, block
+   [KV_S, KV_E] on the diagonal.                                                                                        */
+#ifndef KV_S
+#define KV_S 0
+#endif
+#ifndef KV_E
+#define KV_E KV_ROWS
+#endif
+void h_c08_profiles_diag(void)
+{
+        struct aln_mem m;
+        struct states f[KV_LB + 2], b[KV_LB + 2];
+        int old_cor[5];
+        int meet = -7, t = -7, i, j, mid;
+        float score = 0.0f;
+        float *pa, *pb = NULL;
+        for(i = 0; i < 23; i++){
+                for(j = 0; j < 23; j++){ kv_subm_rows[i][j] = (i < KV_NSYM && j < KV_NSYM) ? kv_psets[KV_PSET][i][j] : 0.0f; }
+                kv_subm_ptr[i] = kv_subm_rows[i];
+        }
+        kv_ap.subm = kv_subm_ptr;
+        kv_ap.gpo = kv_pens[KV_PSET][0]; kv_ap.gpe = kv_pens[KV_PSET][1]; kv_ap.tgpe = kv_pens[KV_PSET][2];
+        kv_ap.nthreads = 1; kv_ap.score = 0.0f;
+        for(i = 0; i < KV_ROWS; i++){ kv_y[i] = kv_in_u8(); KV_ASSUME(kv_y[i] < KV_NSYM); kv_x[i] = kv_y[i]; }   /* the same string */
+        for(j = 0; j < KV_LB + 2; j++){
+                f[j].a = 7.25f; f[j].ga = 7.25f; f[j].gb = 7.25f;
+                b[j].a = 7.25f; b[j].ga = 7.25f; b[j].gb = 7.25f;
+        }
+        f[0].a = 0.0f; f[0].ga = NEG; f[0].gb = NEG;
+        b[0].a = 0.0f; b[0].ga = NEG; b[0].gb = NEG;
+        pa = group_profile(kv_y, KV_ROWS, KV_KA, KV_KB);
+        m.f = f; m.b = b; m.ap = &kv_ap; m.prof1 = pa; m.seq1 = NULL; m.sip = KV_KA;
+#if KV_KB == 1
+        m.seq2 = kv_x; m.prof2 = NULL;
+#else
+        pb = group_profile(kv_x, KV_LB, KV_KB, KV_KA);
+        m.seq2 = NULL; m.prof2 = pb;
+#endif
+        mid = (KV_E - KV_S) / 2 + KV_S;
+        m.starta = KV_S; m.enda = mid; m.starta_2 = mid; m.enda_2 = KV_E; m.startb = KV_S; m.endb = KV_E;
+        m.len_a = KV_ROWS; m.len_b = KV_LB; m.path = NULL; m.tmp_path = NULL; m.mode = ALN_MODE_FULL;
+        old_cor[0] = KV_S; old_cor[1] = KV_E; old_cor[2] = KV_S; old_cor[3] = KV_E; old_cor[4] = mid;
+#if KV_KB == 1
+        aln_seqprofile_foward(&m);
+        aln_seqprofile_backward(&m);
+        aln_seqprofile_meetup(&m, old_cor, &meet, &t, &score);
+#else
+        aln_profileprofile_foward(&m);
+        aln_profileprofile_backward(&m);
+        aln_profileprofile_meetup(&m, old_cor, &meet, &t, &score);
+#endif
+        KV_CHECK(t == 1, "groups of copies of one string, diagonal block: the step chooses the transition aligned -> aligned");
+        KV_CHECK(meet == mid, "groups of copies of one string, diagonal block: the step meets on the diagonal (meet == mid)");
+        free(pa); if(pb){ free(pb); }
+        KV_REACH();
+}
 #ifdef KV_NATIVE
 int main(void)
 {
-#if defined(KV_ENTRY_MEETUP)
+#if defined(KV_ENTRY_DIAG)
+        h_c08_profiles_diag();
+#elif defined(KV_ENTRY_MEETUP)
         h_c07_profiles_meetup();
 #elif defined(KV_ENTRY_MIRROR)
         h_c07_profiles_mirror();
